@@ -99,17 +99,20 @@ def validNewResponse (cfg : Cfg) (b : IdpBody) : Bool :=
 
 def validRefreshResponse (b : IdpBody) : Bool := isBearer b.tokenType && decide (b.expiresIn ≥ 0)
 
-/-- `isValidIDToken`: `fail code` or, when all checks up to the key lookup pass, continue with `k` after the lookup -/
+/-- the nonce clause of `isValidIDToken` (after the comma-ok fix: a non-string nonce is invalid) -/
+def nonceAccepted (a : TokAttrs) (expected : Str) (required : Bool) : Bool :=
+  match a.nonce with
+  | .absent => !required
+  | .other => false
+  | .str n => !((required || (n ≠ [] && expected ≠ [])) && n ≠ expected)
+
+/-- `isValidIDToken`: `fail code` or, when all checks up to the key lookup pass, continue with `ok` after the lookup -/
 def validateIdToken (cfg : Cfg) (o : Oracles) (idToken expectedNonce : Str) (nonceRequired : Bool)
     (fail : Nat → Prog) (ok : Prog) : Prog :=
   match o.attrs idToken with
   | none => fail cInternal
   | some a =>
-    let nonceOK : Bool := match a.nonce with
-      | .absent => !nonceRequired
-      | .other => false
-      | .str n => !((nonceRequired || (n ≠ [] && expectedNonce ≠ [])) && n ≠ expectedNonce)
-    if !nonceOK then fail cInvalidArgument
+    if !nonceAccepted a expectedNonce nonceRequired then fail cInvalidArgument
     else if !(a.aud.contains cfg.clientId) then fail cInvalidArgument
     else .act .keys fun r =>
       match r with
